@@ -26,6 +26,12 @@ pub fn run(ctx: &mut Ctx) {
             apply(alt, &a, &mut pt, &mut rng);
             deliver(ctx, "device_auth", "c05.spec", &a, &a.rdr, &reg, "right-root", alt, &pt, None);
         }
+        // another document type's authentic issuer-signed part under the mDL docType, device-signed for ITS docType
+        // (the one in its MSO) and, separately, for the mDL docType
+        for dt in ["org.example.other", MDL] {
+            let pt = other_document_as_mdl(&a, &mut rng, dt);
+            deliver(ctx, "relabelled_document", "c05.spec", &a, &a.rdr, &reg, "right-root", &Alt::None, &pt, None);
+        }
         // cross-session replay: session A's authentic response, re-encrypted for session B's reader
         deliver(ctx, "cross_session", "c05.spec", &b, &b.rdr, &reg, "right-root", &Alt::None, &a.plaintext, None);
         deliver(ctx, "cross_session", "c05.spec", &a, &a.rdr, &reg, "right-root", &Alt::None, &b.plaintext, None);
